@@ -23,7 +23,10 @@ import weave  # noqa: E402
 from rustscan import Lost  # noqa: E402
 
 REPO = os.environ.get('VERIF_REPO', '/repo')
-BUILD = os.path.join(ROOT, 'build')
+BUILD = os.path.join(ROOT, 'build') if REPO == '/repo' else os.path.join(ROOT, 'build', 'scratch-%d' % os.getpid())
+if REPO != '/repo':
+    import atexit, shutil as _sh
+    atexit.register(lambda: _sh.rmtree(BUILD, ignore_errors=True))
 CACHE = os.path.join(ROOT, '.cache')
 EVID = os.path.join(ROOT, 'evidence') if REPO == '/repo' else os.path.join(ROOT, 'build', 'evidence-scratch')
 REPLAYS = os.path.join(ROOT, 'replays')
